@@ -364,8 +364,125 @@ def alphabet(kinds, quick):
     return ev
 
 
+# ---------------------------------------------------------------------------------------------------------------------
+# Layer 2: every public operator factory honours the explicit parameter object and the precision argument
+# ---------------------------------------------------------------------------------------------------------------------
+SWEEP_P = (2, 3)
+SWEEP_OTHER = (6, 5)
+HELM_KS = [1.1, 0.9 + 0.3j, 0.7j]   # real, complex, purely imaginary (the factories branch on the wavenumber class)
+
+
+def factories(quick):
+    """(label, group, family, name, wavenumber) for every public boundary / potential / far-field factory."""
+    out = []
+    for name in ops.SCALAR_NAMES:
+        out.append(("boundary", "laplace", name, None))
+        for k in HELM_KS:
+            out.append(("boundary", "helmholtz", name, k))
+        out.append(("boundary", "modified_helmholtz", name, 0.8))
+    for name in ("electric_field", "magnetic_field"):
+        for k in HELM_KS[:2]:
+            out.append(("boundary", "maxwell", name, k))
+            out.append(("potential", "maxwell", name, k))
+            out.append(("far_field", "maxwell", name, k))
+    for name in ("identity", "laplace_beltrami"):
+        out.append(("boundary", "sparse", name, None))
+    for name in ("single_layer", "double_layer"):
+        out.append(("potential", "laplace", name, None))
+        out.append(("potential", "modified_helmholtz", name, 0.8))
+        for k in HELM_KS:
+            out.append(("potential", "helmholtz", name, k))
+            out.append(("far_field", "helmholtz", name, k))
+    return out
+
+
+def plumbing_sweep(ctx, quick):
+    import bempp_cl.api as bem
+
+    world = World(ctx.seed)
+    mesh = meshes.get("tet", ctx.seed)
+    grid = SP.make_grid(mesh)
+    p1 = SP.make_space(grid, {"kind": "P1"})
+    rwg = SP.make_space(grid, {"kind": "RWG"})
+    snc = SP.make_space(grid, {"kind": "SNC"})
+    dirs = POINTS / np.linalg.norm(POINTS, axis=0)
+    g = bem.GLOBAL_PARAMETERS
+
+    def setg(q):
+        g.quadrature.regular, g.quadrature.singular = q
+
+    def build(group, family, name, k, par, precision=None, assembler=None):
+        if group == "boundary":
+            if family == "maxwell":
+                return ops.boundary(family, name, rwg, rwg, snc, k=k, par=par, precision=precision, assembler=assembler or "default_nonlocal")
+            return ops.boundary(family, name, p1, p1, p1, k=k, par=par, precision=precision, assembler=assembler or "default_nonlocal")
+        sp = rwg if family == "maxwell" else p1
+        return ops.potential(family, name, sp, dirs if group == "far_field" else POINTS, k=k, par=par, precision=precision, far_field=group == "far_field")
+
+    def value(group, family, op):
+        if group == "boundary":
+            return np.asarray(op.weak_form().to_dense())
+        sp = rwg if family == "maxwell" else p1
+        n = sp.global_dof_count
+        return np.array([np.asarray(op.evaluate(bem.GridFunction(sp, coefficients=np.eye(n)[j]))) for j in range(n)])
+
+    for group, family, name, k in factories(quick):
+        case = {"layer": "factory-sweep", "group": group, "family": family, "operator": name, "k": k}
+        sig = "explicit-parameters/%s/%s/%s/%s" % (group, family, name, "no-k" if k is None else ("real-k" if np.imag(k) == 0 else ("imaginary-k" if np.real(k) == 0 else "complex-k")))
+        try:
+            world.reset()
+            res = {}
+            setg(DEFAULT_Q)
+            res["default"] = value(group, family, build(group, family, name, k, None))
+            res["explicit"] = value(group, family, build(group, family, name, k, ops.params(*SWEEP_P)))
+            setg(SWEEP_P)
+            res["global"] = value(group, family, build(group, family, name, k, None))
+            setg(SWEEP_OTHER)
+            res["explicit-under-other-global"] = value(group, family, build(group, family, name, k, ops.params(*SWEEP_P)))
+            # construction under one global setting, assembly after the global setting changed: explicit object still decides
+            setg(DEFAULT_Q)
+            op = build(group, family, name, k, ops.params(*SWEEP_P))
+            setg(SWEEP_OTHER)
+            res["explicit-global-changed-before-assembly"] = value(group, family, op)
+            setg(DEFAULT_Q)
+            res["single"] = value(group, family, build(group, family, name, k, ops.params(*SWEEP_P), precision="single"))
+            res["double"] = value(group, family, build(group, family, name, k, ops.params(*SWEEP_P), precision="double"))
+        except Exception as exc:  # noqa: BLE001
+            setg(DEFAULT_Q)
+            ctx.violation(sig + "/exception:" + type(exc).__name__, case, repr(exc))
+            continue
+        finally:
+            setg(DEFAULT_Q)
+        ctx.case(("factory", group, family, name, repr(k)), sub="factory-sweep", sample=case if len(ctx.samples) < 6 and k == 0.7j else None)
+        ctx.transitions += 7
+        ref = res["explicit"]
+        scale = float(np.max(np.abs(ref))) or 1.0
+        for key in ("global", "explicit-under-other-global", "explicit-global-changed-before-assembly", "double"):
+            err = float(np.max(np.abs(res[key] - ref))) / scale
+            ctx.observe("explicit-vs-" + key, err, 1e-12)
+            if res[key].shape != ref.shape or err > 1e-12:
+                ctx.violation(sig + "/" + key, dict(case, compared=key), "explicit parameter object %s gives a result differing by %.2e from '%s'" % (SWEEP_P, err, key))
+        err = float(np.max(np.abs(res["single"] - ref))) / scale
+        ctx.observe("single-vs-double", err, 2e-4)
+        if err > 2e-4:
+            ctx.violation(sig + "/single-precision", case, "precision='single' differs from double by %.2e" % err)
+        if family != "sparse":
+            d = float(np.max(np.abs(res["default"] - ref))) / scale
+            if d > 1e-9:
+                ctx.cover("factories_where_orders_are_observable", (group, family, name, repr(k)))
+            else:
+                ctx.cover("factories_where_orders_are_not_observable", (group, family, name, repr(k)))
+    n_obs = len(ctx.cov.get("factories_where_orders_are_observable", ()))
+    n_all = len([f for f in factories(quick) if f[1] != "sparse"])
+    ctx.require(n_obs == n_all, "quadrature orders %s vs %s are observable for every non-sparse factory (%d of %d)" % (SWEEP_P, DEFAULT_Q, n_obs, n_all))
+
+
 def run(ctx):
     quick = ctx.tier == "quick"
+    if not (ctx.only and "bfs" in ctx.only and "sweep" not in ctx.only):
+        plumbing_sweep(ctx, quick)
+        if ctx.only and "bfs" not in ctx.only:
+            return ctx.finish(rule="factory sweep only")
     kinds = KINDS_QUICK if quick else KINDS_FULL
     depth = 3 if quick else 4
     events = alphabet(kinds, quick)
